@@ -43,7 +43,7 @@ func init() {
 	hx.Register(&hx.Prop{
 		ID: "C10",
 		Rule: "server: exhaustive patterns (≤4 over {a,/,{,}}) × inputs (≤3 over {a,/,b}) plus URL-shaped pairs; " +
-			"schema: all one-definition environments over the fragment leaf/allOf/items/$ref (depth ≤2), a second exhaustive family with not/anyOf against allOf/items, × 2 values (4 in thorough), plus random environments of ≤3 definitions; " +
+			"schema: all one-definition environments over the fragment leaf/allOf/items/$ref (depth ≤2), a second exhaustive family with not/anyOf against allOf/items and a third with properties/additionalProperties (object values), × 2–3 values (4–5 in thorough), plus random environments of ≤3 definitions; " +
 			"traffic: seeded documents assembled from pools of legal-but-unusual features (content-defined parameters and headers, bounds flags without bounds, multipleOf 0, " +
 			"uncompilable-looking patterns, discriminators, deepObject, recursive components, path items without operations, trailing-slash and templated servers) × " +
 			"byte-level requests/responses (any method, verbatim-template and mutated paths, hostile queries, content types and bodies) through both routers, " +
@@ -219,7 +219,40 @@ func c10SchemaJSON(s map[string]any) map[string]any {
 	if nt, ok := s["not"].(map[string]any); ok {
 		out["not"] = c10SchemaJSON(nt)
 	}
+	if ps := jlist(s["props"]); len(ps) > 0 {
+		m := map[string]any{}
+		for _, kv := range ps {
+			if p, ok := kv.([]any); ok && len(p) == 2 {
+				m[fmt.Sprintf("k%d", c10Int(p[0]))] = c10SchemaJSON(p[1].(map[string]any))
+			}
+		}
+		out["properties"] = m
+	}
+	if ad, ok := s["addl"].(map[string]any); ok {
+		out["additionalProperties"] = c10SchemaJSON(ad)
+	}
 	return out
+}
+
+// c10ValueJSON: a value of the fragment — number, array, or {"o": [[key, value]…]} = object with members k<key>
+func c10ValueJSON(v any) any {
+	switch x := v.(type) {
+	case []any:
+		out := []any{}
+		for _, y := range x {
+			out = append(out, c10ValueJSON(y))
+		}
+		return out
+	case map[string]any:
+		m := map[string]any{}
+		for _, kv := range jlist(x["o"]) {
+			if p, ok := kv.([]any); ok && len(p) == 2 {
+				m[fmt.Sprintf("k%d", c10Int(p[0]))] = c10ValueJSON(p[1])
+			}
+		}
+		return m
+	}
+	return v
 }
 
 func c10Refs(s map[string]any, acc *[]int) {
@@ -234,9 +267,16 @@ func c10Refs(s map[string]any, acc *[]int) {
 			c10Refs(x.(map[string]any), acc)
 		}
 	}
-	for _, k := range []string{"items", "not"} {
+	for _, k := range []string{"items", "not", "addl"} {
 		if it, ok := s[k].(map[string]any); ok {
 			c10Refs(it, acc)
+		}
+	}
+	for _, kv := range jlist(s["props"]) {
+		if p, ok := kv.([]any); ok && len(p) == 2 {
+			if m, ok := p[1].(map[string]any); ok {
+				c10Refs(m, acc)
+			}
 		}
 	}
 }
@@ -302,7 +342,7 @@ func c10RunSchema(c hx.Case) any {
 	if err != nil {
 		return map[string]any{"kind": "router-err"}
 	}
-	body, _ := json.Marshal(c["value"])
+	body, _ := json.Marshal(c10ValueJSON(c["value"]))
 	req, _ := http.NewRequest("POST", "http://h/v", bytes.NewReader(body))
 	req.Header.Set("Content-Type", "application/json")
 	route, pp, err := r.FindRoute(req)
@@ -938,12 +978,19 @@ func genC10(ctx *hx.Ctx, emit func(hx.Case)) {
 	}
 	// ---- schema fragment: exhaustive small environments
 	shapes := c10SchemaShapes(2, ctx.Thorough())
+	obj := func(kvs ...any) any { return map[string]any{"o": kvs} }
 	vals := []any{1, []any{[]any{2}, 3}}
+	objVals := []any{obj([]any{0, 1}, []any{1, obj([]any{2, []any{}})}), obj()}
 	if ctx.Thorough() {
 		vals = []any{1, []any{}, []any{1}, []any{[]any{2}, 3}}
+		objVals = append(objVals, obj([]any{1, obj([]any{1, obj([]any{1, 5})})}), obj([]any{2, 7}))
 	}
 	for _, d0 := range shapes {
-		for _, v := range vals {
+		vs := vals
+		if m, _ := d0.(map[string]any); m["props"] != nil || m["addl"] != nil {
+			vs = append(append([]any{}, objVals...), 1)
+		}
+		for _, v := range vs {
 			emit(hx.Case{"op": "schema", "defs": []any{d0}, "root": map[string]any{"ref": 0}, "value": v})
 		}
 	}
@@ -1031,6 +1078,23 @@ func c10SchemaShapes(nDefs int, thorough bool) []any {
 			}
 		}
 	}
+	// third family: the guarded object positions (properties, additionalProperties as a schema) alone and against
+	// the unguarded ones; keys 0..2 are the members k0..k2
+	for _, ps := range [][]any{{}, {[]any{1, ref0}}, {[]any{0, lf}, []any{1, ref0}}} {
+		for _, ad := range []any{nil, ref0, lf} {
+			if len(ps) == 0 && ad == nil {
+				continue
+			}
+			for _, al := range [][]any{{}, {ref0}} {
+				for _, nt := range []any{nil, lf} {
+					out = append(out, map[string]any{"own": false, "not": nt, "anyOf": []any{}, "allOf": al, "items": nil, "props": ps, "addl": ad})
+				}
+			}
+			if thorough {
+				out = append(out, map[string]any{"own": true, "not": nil, "anyOf": []any{ref0, lt}, "allOf": []any{}, "items": ref0, "props": ps, "addl": ad})
+			}
+		}
+	}
 	return out
 }
 
@@ -1067,12 +1131,33 @@ func c10RandSchema(r *hx.Rng, nDefs, depth int, top bool) map[string]any {
 	if r.Chance(20) {
 		out["not"] = c10RandSchema(r, nDefs, depth-1, false)
 	}
+	if r.Chance(30) {
+		ps := []any{}
+		for k := 0; k < 3; k++ {
+			if r.Chance(40) {
+				ps = append(ps, []any{k, c10RandSchema(r, nDefs, depth-1, false)})
+			}
+		}
+		out["props"] = ps
+	}
+	if r.Chance(25) {
+		out["addl"] = c10RandSchema(r, nDefs, depth-1, false)
+	}
 	return out
 }
 
 func c10RandValue(r *hx.Rng, depth int) any {
 	if depth <= 0 || r.Chance(40) {
 		return r.Intn(5)
+	}
+	if r.Chance(40) {
+		o := []any{}
+		for k := 0; k < 4; k++ { // keys in ascending (= sorted) order
+			if r.Chance(45) {
+				o = append(o, []any{k, c10RandValue(r, depth-1)})
+			}
+		}
+		return map[string]any{"o": o}
 	}
 	l := []any{}
 	for i := r.Intn(3); i > 0; i-- {
